@@ -20,7 +20,7 @@
 # reflect the position or policy of the Government and no official
 # endorsement should be inferred.
 
-from typing import Dict, Iterable, Optional, Tuple
+from typing import Dict, Iterable, Optional, Set, Tuple
 
 import gtirb
 
@@ -75,9 +75,11 @@ class BlockOrdering:
         # The blocks are walked twice; a one-shot iterator would be exhausted
         # by the duplicate check.
         insert_blocks = tuple(insert_blocks)
+        seen: Set[gtirb.ByteBlock] = set()
         for block in insert_blocks:
-            if block in self.__order:
+            if block in self.__order or block in seen:
                 raise ValueError(f"{block} is already ordered")
+            seen.add(block)
 
         prev_entry = self.__order[after_block] if after_block else None
         for block in insert_blocks:
